@@ -5,6 +5,7 @@ import time
 import json
 import numpy as np
 from hypothesis import strategies as st
+from ..strat import ints
 from .. import matspec, refconn, build
 from ..core import Result, viol, exc_sig, jhash
 from ..observe import lcg_vectors
@@ -26,7 +27,7 @@ MARKER_IMPUTERS = ('ConstraintViolationImputer', 'LazyConstraintViolationImputer
 
 def strategy(tier):
     return st.fixed_dictionaries({'ms': st.one_of(matspec.mat_spec(max_side=3, max_patterns=4),
-                                                  matspec.pattern_family_spec(), matspec.pattern_family_spec()), 'vseed': st.integers(0, 2**31)})
+                                                  matspec.pattern_family_spec(), matspec.pattern_family_spec()), 'vseed': ints(0, 2**31)})
 
 
 def registry():
